@@ -88,6 +88,7 @@ func c07Hooks(level int) limHooks {
 			best := start
 			probeLimited := cfg.algo == "gradient" && cfg.probe > 0 && cfg.probe*cfg.queueAt(cfg.max) <= cfg.max
 			raised := false
+			lastProbe := -1
 			for i := 0; i < n; i++ {
 				if cfg.algo == "gradient" && cfg.probe >= 2 && i == 2*cfg.probe+2 && !raised && start < target {
 					// probes are at least one probe interval apart, so among any 2 x interval + 2 healthy
@@ -101,18 +102,19 @@ func c07Hooks(level int) limHooks {
 					return
 				}
 				cur := li.top.EstimatedLimit()
-				if cfg.algo == "gradient" && li.rttNoLoad() == 0 {
-					// this sample was a probe (baseline reset): it restarts from the queue allowance
+				if cfg.algo == "gradient" && (li.rttNoLoad() == 0 || (cur < prev+cfg.queueAt(prev) && cur < cfg.max)) {
+					// the sample did not grow the estimate by the allowance: that is what a probe looks like
+					// (it may cut the limit, reset the baseline, or do nothing visible). Probes are at least
+					// one probe interval apart; anything more frequent is a healthy sample that failed to grow
+					if cfg.probe < 0 {
+						t.Fail("gradient/healthy-increment", "healthy saturated sample moved the estimate %d -> %d with probing disabled, expected at least +%d (queue allowance) up to the ceiling %d", prev, cur, cfg.queueAt(prev), cfg.max)
+					} else if lastProbe >= 0 && i-lastProbe < cfg.probe {
+						t.Fail("gradient/healthy-increment", "healthy saturated samples %d and %d of the run both failed to grow the estimate (%d -> %d), probes are at least %d samples apart; expected at least +%d (queue allowance) up to the ceiling %d",
+							lastProbe, i, prev, cur, cfg.probe, cfg.queueAt(prev), cfg.max)
+					}
+					lastProbe = i
 					prev = cur
 					continue
-				}
-				if cfg.algo == "gradient" && cur < prev {
-					// only a probe may lower the estimate in a healthy run
-					if cfg.probe < 0 {
-						t.Fail("gradient/healthy-decrease", "healthy saturated sample lowered the estimate %d -> %d with probing disabled", prev, cur)
-					}
-				} else if cfg.algo == "gradient" && cur < prev+cfg.queueAt(prev) && cur < cfg.max {
-					t.Fail("gradient/healthy-increment", "healthy saturated sample moved the estimate %d -> %d, expected at least +%d (queue allowance) up to the ceiling %d", prev, cur, cfg.queueAt(prev), cfg.max)
 				}
 				if cur > prev {
 					raised = true
